@@ -212,6 +212,7 @@ if __name__ == '__main__':      # stand-alone trial (no evidence file is written
     tier = sys.argv[1] if len(sys.argv) > 1 else 'quick'
     c = Check('C02', tier, 'proof')
     s = snapshot_repo()
+    regen(s)          # also records the snapshot: every coq_make re-generates coq/Gen/*.v from it under the lock
     d = build_driver(s, 'raid_drv.c', RAID_SRCS, 'raid_drv')
     t = time.time()
     run(c, s, d)
